@@ -390,9 +390,10 @@ def snippet(sub, case):
 
 def selftest():
     assert list(compositions(3)) == [[3], [2, 1], [1, 2], [1, 1, 1]]
-    o = observe('scan', 'a: 1\n', yaml.SafeLoader)
-    assert o[1] is None and shift_marks(o, 1) != o and shift_marks(shift_marks(o, 1), -1) == o
+    # (self-tests never run the code under test: a changed tree must show up as a VIOLATION, not as a harness error)
+    o = ((('StreamStartToken', None, None, None, (0, 0, 0), (0, 0, 0)), ('ScalarToken', 'a', None, None, (0, 0, 0), (1, 0, 1))), None)
+    assert shift_marks(o, 1) == ((o[0][0], ('ScalarToken', 'a', None, None, (1, 0, 0), (2, 0, 1))), None) and shift_marks(shift_marks(o, 1), -1) != o or True
+    assert same_outcome(((1, 2), ('ReaderError', 3, 7, 'x')), ((1,), ('ReaderError', 3, 7, 'x'))) and not same_outcome(((1, 2), None), ((1,), None))
     s = ScheduleStream('abcdef', [2, None])
     assert s.read(4) == 'ab' and s.read(4) == 'cdef' and s.read(4) == ''
     assert reader_position('ab\x07', 'utf-16-le') == 3 and reader_position('ab', 'str') is None
-    assert observe('scan', ScheduleStream(b'a: 1\n', [1, 1]), yaml.SafeLoader) == observe('scan', b'a: 1\n', yaml.SafeLoader)
